@@ -49,6 +49,8 @@ def catalogue(rng=None, widths=(1, 2, 3), groups=('arith', 'logic', 'fxp'), big=
                     if wr >= wa:
                         add('arith', 'AddCarryIn', [wa, wb, 1], [wr], lambda hw, i, o: P.AddCarryIn(hw, 'dut', i[0], i[1], o[0], i[2]))
                     add('arith', 'Sub', [wa, wb], [wr], lambda hw, i, o: P.Sub(hw, 'dut', i[0], i[1], o[0]))
+                    if wr >= wa:
+                        add('arith', 'SubBorrowIn', [wa, wb, 1], [wr], lambda hw, i, o: P.SubBorrowIn(hw, 'dut', i[0], i[1], o[0], i[2]))
                     add('arith', 'Mul', [wa, wb], [wr], lambda hw, i, o: P.Mul(hw, 'dut', i[0], i[1], o[0]))
                     add('arith', 'SignedMul', [wa, wb], [wr], lambda hw, i, o: P.SignedMul(hw, 'dut', i[0], i[1], o[0]))
                     add('arith', 'Div', [wa, wb], [wr], lambda hw, i, o: P.Div(hw, 'dut', i[0], i[1], o[0]))
@@ -128,6 +130,12 @@ def catalogue(rng=None, widths=(1, 2, 3), groups=('arith', 'logic', 'fxp'), big=
                     for wr in sorted({h - l + 1, w}):
                         add('logic', 'Range', [w], [wr], lambda hw, i, o, h=h, l=l: P.Range(hw, 'dut', i[0], h, l, o[0]),
                             {'h': h, 'l': l}, ' %d:%d' % (h, l))
+            for w2 in W:
+                add('logic', 'ConcatenateMSBF', [w, w2], [w + w2], lambda hw, i, o: P.ConcatenateMSBF(hw, 'dut', list(i), o[0]))
+                add('logic', 'ConcatenateLSBF', [w, w2], [w + w2], lambda hw, i, o: P.ConcatenateLSBF(hw, 'dut', list(i), o[0]))
+                if w + w2 + 1 <= 30:
+                    add('logic', 'ConcatenateMSBF', [w, 1, w2], [w + w2 + 1], lambda hw, i, o: P.ConcatenateMSBF(hw, 'dut', list(i), o[0]))
+                    add('logic', 'ConcatenateLSBF', [w2, w, 1], [w + w2 + 1], lambda hw, i, o: P.ConcatenateLSBF(hw, 'dut', list(i), o[0]))
             add('logic', 'BitsLSBF', [w], [1] * w, lambda hw, i, o: P.BitsLSBF(hw, 'dut', i[0], list(o)))
             add('logic', 'BitsMSBF', [w], [1] * w, lambda hw, i, o: P.BitsMSBF(hw, 'dut', i[0], list(o)))
             add('logic', 'Repeat', [1], [w], lambda hw, i, o: P.Repeat(hw, 'dut', i[0], o[0]))
